@@ -16,7 +16,7 @@ ASSUMPTIONS = [
     "packed structured dtypes; NumPy's dtype objects (descr, names, fields) are the library's own, array storage is modelled by vf.symrec (conformance pass)",
     "table shapes (), (2,), (2,2); at most 4 fields per table and 3 tables to combine",
 ]
-BOUNDS = {"quick": {"layouts": 2, "selections": "all ordered selections of <=2 names (+missing) and two of length 3", "shapes": "(), (2,), (2,2)"},
+BOUNDS = {"quick": {"layouts": 3, "selections": "all ordered selections of <=2 names (+missing) and two of length 3", "shapes": "(), (2,), (2,2)"},
           "thorough": {"layouts": 3, "selections": "all ordered selections of <=3 names (+missing)", "shapes": "(), (2,), (2,2), (1,)"}}
 EXPLORE_OPTS = {"max_paths": 20000}
 TIER_OPTS = {"quick": {"time_budget": 300}, "thorough": {"time_budget": 1800}}
@@ -33,7 +33,7 @@ MISSING = "nosuch"
 def configs(tier):
     q = tier == "quick"
     out = []
-    lays = ("A", "B") if q else ("A", "B", "C")
+    lays = ("A", "B", "C")
     shapes = SHAPES if q else SHAPES + ((1,),)
     for lay in lays:
         names = [d[0] for d in LAYOUTS[lay]]
